@@ -29,6 +29,7 @@ def gen_cfg(rng: random.Random, legacy: bool | None = None, faults: bool = True)
         "exec_latency_ms": [0.0, 0.0],
         "timer_late_ms": 0.0,
         "env_seed": rng.randrange(1 << 30),
+        "set_order_salt": rng.choice([0, 0, 1, 2, 3]),
     }
     if faults:
         if rng.random() < 0.5:
